@@ -50,6 +50,11 @@ type recorder struct {
 	insts   int
 	overlap string
 	delays  []time.Duration
+	// atConstruct[key], when set, is run once by the constructor of the next
+	// client for that placement: inside the manager's window between reading
+	// the node's children and subscribing to the node
+	atConstruct map[string]func()
+	fired       map[string]bool
 }
 
 func (r *recorder) add(what, key string, inst int) {
@@ -159,7 +164,7 @@ func TestPropOneClientPerNode(t *testing.T) {
 	rapid.Check(t, func(t *rapid.T) {
 		in := fix.New(t, fix.Opts{ID: "inst"})
 		defer in.Close()
-		rec := &recorder{running: map[string]int{}, latest: map[string]Probe{}}
+		rec := &recorder{running: map[string]int{}, latest: map[string]Probe{}, atConstruct: map[string]func(){}, fired: map[string]bool{}}
 		for i := 0; i < 8; i++ {
 			rec.delays = append(rec.delays, time.Duration(rapid.IntRange(0, 100).Draw(t, "runReturnDelayMs"))*time.Millisecond)
 		}
@@ -170,12 +175,21 @@ func TestPropOneClientPerNode(t *testing.T) {
 		defer mnc.Close()
 		mgr := client.NewManager(mnc, func(_ *nats.Conn, c Probe) client.Client {
 			rec.mu.Lock()
-			defer rec.mu.Unlock()
 			rec.insts++
+			inst := rec.insts
 			key := c.Parent + ">" + c.ID
 			rec.latest[key] = c
-			rec.add("construct", key, rec.insts)
-			return &probeClient{rec: rec, key: key, inst: rec.insts, stop: make(chan struct{}), delay: rec.delays[rec.insts%len(rec.delays)]}
+			rec.add("construct", key, inst)
+			hook := rec.atConstruct[key]
+			delete(rec.atConstruct, key)
+			rec.mu.Unlock()
+			if hook != nil {
+				hook()
+				rec.mu.Lock()
+				rec.fired[key] = true
+				rec.mu.Unlock()
+			}
+			return &probeClient{rec: rec, key: key, inst: inst, stop: make(chan struct{}), delay: rec.delays[inst%len(rec.delays)]}
 		}, []string{"probeHost"})
 		mdone := make(chan error, 1)
 		go func() { mdone <- mgr.Run() }()
@@ -343,7 +357,7 @@ func TestPropOneClientPerNode(t *testing.T) {
 		steps := rapid.IntRange(4, 14).Draw(t, "steps")
 		checkAt := rapid.IntRange(1, steps).Draw(t, "checkpoint")
 		for s := 0; s < steps; s++ {
-			op := rapid.SampledFrom([]string{"newProbe", "newProbe", "newContainer", "mirror", "delete", "delete", "undelete", "addKid", "removeKid", "pointUpdate"}).Draw(t, "op")
+			op := rapid.SampledFrom([]string{"newProbe", "newProbe", "newContainer", "mirror", "delete", "delete", "undelete", "addKid", "removeKid", "pointUpdate", "kidDuringConstruct"}).Draw(t, "op")
 			switch op {
 			case "newProbe":
 				id := fmt.Sprintf("p%d", len(ofType("probe")))
@@ -421,6 +435,63 @@ func TestPropOneClientPerNode(t *testing.T) {
 					flags["childChangeWith>=2Clients"] = true
 				}
 				setDeleted(cands[rapid.IntRange(0, len(cands)-1).Draw(t, "kid")], true)
+			case "kidDuringConstruct":
+				// a new probe whose constructor -- called by the manager after it
+				// has read the node's children and before it subscribes to the
+				// node -- adds a child to that node. The harness owns this
+				// schedule: the child lands in the manager's start-up window.
+				if len(ofType("probe")) >= 5 {
+					break
+				}
+				id := fmt.Sprintf("p%d", len(ofType("probe")))
+				parent := rapid.SampledFrom(containers()).Draw(t, "parent")
+				kid := fmt.Sprintf("k%d", len(ofType("probeKid")))
+				key := parent + ">" + id
+				ts := tick()
+				var hookErr string
+				rec.mu.Lock()
+				rec.atConstruct[key] = func() {
+					r, err := fix.Write(in.NC, "p."+kid+"."+id, data.Points{{Type: data.PointTypeTombstone, Value: 0, Time: ts, Origin: "h"}, {Type: data.PointTypeNodeType, Text: "probeKid", Origin: "h"}})
+					if err != nil || r != "" {
+						hookErr = fmt.Sprintf("%q %v", r, err)
+					}
+				}
+				rec.mu.Unlock()
+				place(id, parent, "probe")
+				if _, live := w.expected()[key]; !live {
+					// no client is constructed for this placement now; the child
+					// is added the ordinary way
+					rec.mu.Lock()
+					delete(rec.atConstruct, key)
+					rec.mu.Unlock()
+					place(kid, id, "probeKid")
+					break
+				}
+				deadline := time.Now().Add(20 * time.Second)
+				for n := 0; ; n++ {
+					rec.mu.Lock()
+					f := rec.fired[key]
+					rec.mu.Unlock()
+					if f {
+						break
+					}
+					if time.Now().After(deadline) {
+						t.Fatalf("no client was constructed for the live placement %s within 20 s\nhistory: %v", key, hist)
+					}
+					if n%50 == 49 {
+						pb, _ := (&data.Points{{Type: data.PointTypeNodeType, Text: "verif"}}).ToPb()
+						in.NC.Publish("up.root.verif", pb)
+						in.NC.Flush()
+					}
+					time.Sleep(20 * time.Millisecond)
+				}
+				if hookErr != "" {
+					t.Fatalf("write of %s under %s from the constructor: %s", kid, id, hookErr)
+				}
+				w.nodes[kid] = &mnode{typ: "probeKid"}
+				w.edges = append(w.edges, &medge{parent: id, id: kid})
+				hist = append(hist, fmt.Sprintf("place %s(probeKid) under %s from inside the constructor of %s", kid, id, key))
+				flags["childDuringConstruct"] = true
 			case "pointUpdate":
 				ps := ofType("probe")
 				if len(ps) == 0 {
@@ -461,7 +532,7 @@ func TestPropOneClientPerNode(t *testing.T) {
 		if overlap != "" {
 			t.Fatalf("%s\nhistory: %v", overlap, hist)
 		}
-		nt := (flags["ancestorDeletion"] || flags["childChangeWith>=2Clients"])
+		nt := (flags["ancestorDeletion"] || flags["childChangeWith>=2Clients"] || flags["childDuringConstruct"])
 		var cls []string
 		for f := range flags {
 			cls = append(cls, f)
@@ -562,5 +633,75 @@ func TestRegressLastClientStopsWithAncestor(t *testing.T) {
 	w("g", "inst", data.Points{{Type: data.PointTypeTombstone, Value: 1, Time: now.Add(time.Second), Origin: "h"}})
 	if !wait(0) {
 		t.Fatalf("the client for g>p keeps running although its group was deleted")
+	}
+}
+
+// TestRegressChildAddedDuringConstruction: a child added to a client's node
+// between the manager's read of the node's children and its subscription to
+// the node (here: from inside the constructor, which the manager calls in
+// exactly that window) was in neither, so the client kept running with a
+// configuration that lacks the child.
+func TestRegressChildAddedDuringConstruction(t *testing.T) {
+	in := fix.New(t, fix.Opts{ID: "inst"})
+	defer in.Close()
+	rec := &recorder{running: map[string]int{}, latest: map[string]Probe{}, delays: []time.Duration{0}}
+	mnc, err := in.Connect()
+	if err != nil {
+		t.Fatal(err)
+	}
+	defer mnc.Close()
+	now := time.Now()
+	first := true
+	var hookErr string
+	mgr := client.NewManager(mnc, func(_ *nats.Conn, c Probe) client.Client {
+		rec.mu.Lock()
+		rec.insts++
+		inst := rec.insts
+		key := c.Parent + ">" + c.ID
+		rec.latest[key] = c
+		rec.add("construct", key, inst)
+		f := first
+		first = false
+		rec.mu.Unlock()
+		if f {
+			r, err := in.EdgePoints("k", "p", data.Points{{Type: data.PointTypeTombstone, Time: now, Origin: "h"}, {Type: data.PointTypeNodeType, Text: "probeKid", Origin: "h"}})
+			if err != nil || r != "" {
+				hookErr = fmt.Sprintf("%q %v", r, err)
+			}
+		}
+		return &probeClient{rec: rec, key: key, inst: inst, stop: make(chan struct{})}
+	}, nil)
+	done := make(chan error, 1)
+	go func() { done <- mgr.Run() }()
+	defer func() {
+		mgr.Stop(nil)
+		select {
+		case <-done:
+		case <-time.After(15 * time.Second):
+		}
+	}()
+	if r, err := in.EdgePoints("p", "inst", data.Points{{Type: data.PointTypeTombstone, Time: now, Origin: "h"}, {Type: data.PointTypeNodeType, Text: "probe", Origin: "h"}}); err != nil || r != "" {
+		t.Fatalf("%q %v", r, err)
+	}
+	deadline := time.Now().Add(15 * time.Second)
+	for {
+		rec.mu.Lock()
+		c, ok := rec.latest["inst>p"]
+		running := rec.running["inst>p"]
+		l := renderLog(rec.log)
+		rec.mu.Unlock()
+		if hookErr != "" {
+			t.Fatalf("write from the constructor: %s", hookErr)
+		}
+		if ok && running == 1 && len(c.Kids) == 1 && c.Kids[0].ID == "k" {
+			return
+		}
+		if time.Now().After(deadline) {
+			t.Fatalf("child k was added to node p while its client was being constructed; 15 s later the latest client has children %v (running=%d)\nlog:\n%s", c.Kids, running, l)
+		}
+		pb, _ := (&data.Points{{Type: data.PointTypeNodeType, Text: "verif"}}).ToPb()
+		in.NC.Publish("up.root.verif", pb)
+		in.NC.Flush()
+		time.Sleep(200 * time.Millisecond)
 	}
 }
